@@ -4,6 +4,6 @@ SEEDS=$1; TIER=${2:-quick}; shift; shift
 IDS=${@:-C01 C02 C03 C04 C05 C06 C07 C08 C09 C10 C11 C12 C13 C14 C15 C16 C17 C18 C19 C20}
 for s in $SEEDS; do for id in $IDS; do
   t0=$(date +%s)
-  VERIF_SEED=$s /venv/bin/python -m vp.run $id --tier $TIER > sweep_$id_$s.log 2>&1; rc=$?
-  echo "seed=$s $id rc=$rc $(( $(date +%s) - t0 ))s $(grep -c '^VIOLATION' sweep_$id_$s.log) violations"; [ $rc -ne 0 ] && grep -E "VIOLATION|bucket=|Traceback|Error" sweep_$id_$s.log | head -8
+  VERIF_SEED=$s /venv/bin/python -m vp.run $id --tier $TIER > sweep_${id}_${s}.log 2>&1; rc=$?
+  echo "seed=$s $id rc=$rc $(( $(date +%s) - t0 ))s $(grep -c '^VIOLATION' sweep_${id}_${s}.log) violations"; [ $rc -ne 0 ] && grep -E "VIOLATION|bucket=|Traceback|Error" sweep_${id}_${s}.log | head -8
 done; done
